@@ -1182,6 +1182,45 @@ def run(ctx):
             ctx.count('recursion')
         return None
 
+    def count_repaired_patterns(original, sent):
+        """the three rewrite situations that were found broken on the tree before the `fix:` commits (validation record, G1-G3), counted
+        where the comparison is EXACT (the rebuild without uids): a run in which they never arise must not claim them"""
+        stack, seen_ids = [(sent, None, None)], set()
+        is_uid = lambda f: f.startswith('__') and 'uid' in f  # noqa: E731
+        while stack:
+            x, parent, grandparent = stack.pop()
+            if id(x) in seen_ids:
+                continue
+            seen_ids.add(id(x))
+            cls = type(x).__name__
+            try:
+                if cls == 'MatrixEntriesTable' and type(parent).__name__ == 'TableRename' and '__entry_uid' in parent.row_map:
+                    ctx.count('entries_tables_under_a_uid_requesting_consumer')     # G2: a consumer above asked the entries table for a row uid
+                    if type(grandparent).__name__ == 'TableFilter':
+                        # ... and hands the rows on as they are (a TableMapRows consumer re-selects the fields it knows by name,
+                        # which hid the left-over `__col_uid`; filter / sample do not)
+                        ctx.count('entries_tables_under_a_random_filter')
+                elif cls == 'TableMultiWayZipJoin':
+                    c0 = x.children[0].typ
+                    if any(is_uid(f) for f in c0.row_type if f not in c0.row_key):
+                        ctx.count('multi_way_zip_joins_under_a_uid_requesting_consumer')    # G1: the children carry the uid as a value field
+            except Exception:
+                pass
+            for ch in x.children:
+                if isinstance(ch, ir.BaseIR):
+                    stack.append((ch, x, parent))
+        stack, seen_ids = [original], set()
+        while stack:
+            x = stack.pop()
+            if id(x) in seen_ids:
+                continue
+            seen_ids.add(id(x))
+            if type(x).__name__ == 'TableKeyByAndAggregate' and x.new_key.uses_randomness:
+                ctx.count('random_group_keys_rebuilt')                                   # G3: seeded randomness in the key of a keyed aggregation
+            for ch in x.children:
+                if isinstance(ch, ir.BaseIR):
+                    stack.append(ch)
+
     def sent_check_table(t, what, final=True):
         tir = t._tir
         rep = RefT(t.row.dtype, list(t.key), t.globals.dtype)
@@ -1198,6 +1237,7 @@ def run(ctx):
                 ctx.count('sent_identical_to_emitted')       # no randomness: nothing rebuilt, M6 has judged this tree already
             else:
                 sent_judge(coll.child, rep, {}, what, 'no-uid', rnd, final)
+                count_repaired_patterns(tir, coll.child)
                 ctx.count('contract_sent_action_result_type')
                 got = rebuilt('TableCollect.typ', lambda: coll.typ)
                 want = hl.tstruct(rows=hl.tarray(t.row.dtype), **{'global': t.globals.dtype})
@@ -1499,7 +1539,7 @@ def run(ctx):
     # the wide workload: every op above (with seeded randomness in the generated expressions about half of the time) plus the relational
     # node kinds / optional constructor arguments the plain workload never builds
     TABLE_OPS_WIDE = TABLE_OPS + ['interval_index'] * 5 + ['join', 'index', 'index', 'filter', 'filter', 'group_by', 'tail', 'naive_coalesce', 'sample', 'sample', 'filter_intervals',
-                                  'multi_way_zip_join', 'semi_anti_join', 'map_partitions', 'filter_partitions', 'key_by_sorted', 'key_by_sorted', 'union_rand', 'from_matrix', 'rename', 'globals', 'explode_nested', 'explode']
+                                  'multi_way_zip_join', 'semi_anti_join', 'map_partitions', 'filter_partitions', 'key_by_sorted', 'key_by_sorted', 'union_rand', 'from_matrix', 'from_matrix', 'from_matrix', 'rename', 'globals', 'explode_nested', 'explode']
 
     def table_case(i, rng, wide):
         phase = 'table-sent' if wide else 'table'
@@ -1785,8 +1825,15 @@ def run(ctx):
                         mt0 = mt0.annotate_rows(ra=hl.agg.filter(hl.rand_bool(0.5), hl.agg.sum(mt0.x)))
                     elif r < 0.85:
                         mt0 = mt0.filter_entries(hl.rand_bool(0.5))
-                    view = rng.choice(['rows', 'cols', 'entries', 'localize'] if ENTRIES_UNDER_RANDOMNESS_IN_WORKLOAD else ['rows', 'cols', 'localize', 'localize'])
-                    return view, {'rows': mt0.rows, 'cols': mt0.cols, 'entries': mt0.entries, 'localize': lambda: mt0.localize_entries('ents', 'colz')}[view]()
+                    view = rng.choice(['rows', 'cols', 'entries', 'entries', 'localize'] if ENTRIES_UNDER_RANDOMNESS_IN_WORKLOAD else ['rows', 'cols', 'localize', 'localize'])
+                    tv = {'rows': mt0.rows, 'cols': mt0.cols, 'entries': mt0.entries, 'localize': lambda: mt0.localize_entries('ents', 'colz')}[view]()
+                    # directly under a consumer that asks the view for row uids and passes the rows on unchanged
+                    r2 = rng.random()
+                    if r2 < 0.35:
+                        tv = tv.filter(hl.rand_bool(0.5))
+                    elif r2 < 0.5:
+                        tv = tv.sample(0.5, seed=rng.choice([None, 2]))
+                    return view, tv
                 ok, vt = guarded(op, _fm)
                 if ok:
                     view, t2 = vt
